@@ -1096,7 +1096,14 @@ pub fn analyse(sc: &Scenario, out: &RunOutput) -> Analysis {
     // ---- escape/unescape pair on the names this scenario uses (input-quantified half of C15)
     for n in &sc.nodes {
         if let NodeKind::Discovery { instance, .. } = &n.kind {
-            for s in [instance.name.clone(), format!("{}.x", instance.name), format!("\\{}.", instance.name), "a\\.b\\\\".to_string()] {
+            let mut strs = vec![instance.name.clone(), format!("{}.x", instance.name), format!("\\{}.", instance.name), "a\\.b\\\\".to_string()];
+            // a few seeded strings over the characters that matter to the escaping
+            let mut r = simrt::rng::Rng::new(simrt::rng::mix(sc.seed, 0xE5C));
+            for _ in 0..4 {
+                let n = r.usize_below(9);
+                strs.push((0..n).map(|_| *r.pick(&['a', '.', '\\', 'é', ' ', '-'])).collect());
+            }
+            for s in strs {
                 let esc = simple_mdns::InstanceInformation::new(s.clone()).escaped_instance_name();
                 let back = simple_mdns::InstanceInformation::new(esc.clone()).unescaped_instance_name();
                 if back != s {
